@@ -47,10 +47,12 @@ type Obl struct {
 	Guard  Term
 	NAss   int  // number of assumptions visible
 	Cover  bool // cover goal: Guard must be satisfiable
+	Group  string // cover goals of one return statement executed once per incoming edge: one reachable copy suffices
 	Pos    token.Position
 	Extra  []string // extra declarations local to this obligation
 	Tags   []string
 	Detail string
+	Deps   []string // obligations (or "@loop:<L>" groups) whose goals were assumed before this one was generated
 }
 
 type Exit struct {
@@ -95,6 +97,7 @@ type VC struct {
 	assertSeen map[string]bool
 	assSyms    map[int]map[string]bool
 	assDef     map[int]string
+	deps       []string
 	oblNames   map[string]int
 	tags       map[string]int
 	trigStack  [][]string
@@ -217,7 +220,7 @@ func (vc *VC) oblige(kind, name string, guard, goal Term, pos token.Pos) {
 	if n := vc.oblNames[name]; n > 1 {
 		name = fmt.Sprintf("%s #%d", name, n)
 	}
-	o := &Obl{Name: name, Kind: kind, Goal: goal, Guard: guard, NAss: len(vc.asserts)}
+	o := &Obl{Name: name, Kind: kind, Goal: goal, Guard: guard, NAss: len(vc.asserts), Deps: append([]string{}, vc.deps...)}
 	if pos.IsValid() {
 		o.Pos = vc.L.Fset.Position(pos)
 	}
@@ -423,6 +426,28 @@ func (vc *VC) heapRead(st *State, name string, key Term) Term {
 				}
 			} else {
 				vc.assume(Term{fmt.Sprintf("(=> (> (alloc %s) %s) (= (select %s %s) %s))", key.S, b.S, r, key.S, z.S), SBool})
+			}
+		}
+	}
+	// pointers stored in a root heap existed when that root was created: they are older than
+	// anything allocated afterwards (separation of pre-existing objects from fresh allocations)
+	if vs == SPtr || vs == SSlice {
+		for _, r := range vc.heapRoots(st, name) {
+			b, ok := vc.boundOfRoot(r)
+			if !ok || b.S == st.nalloc.S {
+				continue
+			}
+			acc := "(alloc (select %s %s))"
+			if vs == SSlice {
+				acc = "(alloc (sptr (select %s %s)))"
+			}
+			if vc.qdepth > 0 {
+				if !vc.rootAxiom["old:"+r] {
+					vc.rootAxiom["old:"+r] = true
+					vc.asserts = append(vc.asserts, fmt.Sprintf("(forall ((q Ptr)) (! (<= "+acc+" %s) :pattern ((select %s q))))", r, "q", b.S, r))
+				}
+			} else {
+				vc.assume(Term{fmt.Sprintf("(<= "+acc+" %s)", r, key.S, b.S), SBool})
 			}
 		}
 	}
